@@ -26,6 +26,8 @@ def mk_tree(rng, cont=False):
                       labels=treegen.LABELS + ["N&P", "A<B", "Q\"L"], edges=treegen.EDGES + ["S&B", "-"])
     t = treegen.gen_tree(rng, cfg)
     t.data['sid'] = rng.randint(1, 999)
+    if rng.random() < 0.3:
+        t.data['edge'] = rng.choice(["XX", None, "HD"])      # the root's own edge label: no format writes it
     mode = rng.random()
     for n in trees.preorder(t):
         if mode < 0.6:
